@@ -220,7 +220,7 @@ def reject_ops(rng, tier):
 def random_ops(rng, tier):
     ops = []
     for _ in range(15000 if tier == "quick" else 150000):
-        vs = [F.rand_val(rng, rng.choice([5, 40, 300])) if rng.random() < 0.9 else ("x", gen.rand_bytes(rng, rng.randint(0, 6)))
+        vs = [F.rand_val(rng, rng.choice([5, 40, 300])) if rng.random() < 0.9 else rng.choice([("x", gen.rand_bytes(rng, rng.randint(0, 6))), ("e", b"")])
               for _ in range(rng.randint(0, 6))]
         ml = rng.choice([1000, 1000, 100, 26, 9, 3])
         ok = [F.payload(v) for v in vs if F.payload(v) is not None and len(F.payload(v)) <= ml]
@@ -255,7 +255,7 @@ def long_ops(rng, tier):
     """many frames through one writer: counters that only matter after dozens or hundreds of frames"""
     ops = []
     for n in LONG * (2 if tier == "quick" else 10):
-        vs = [F.rand_val(rng, rng.choice([5, 5, 40])) if rng.random() < 0.97 else ("x", gen.rand_bytes(rng, 2)) for _ in range(n)]
+        vs = [F.rand_val(rng, rng.choice([5, 5, 40])) if rng.random() < 0.96 else rng.choice([("x", gen.rand_bytes(rng, 2)), ("e", b"")]) for _ in range(n)]
         ml = rng.choice([1000, 26])
         ok = [F.payload(v) for v in vs if F.payload(v) is not None and len(F.payload(v)) <= ml]
         total = sum(4 + len(p) for p in ok)
